@@ -1,7 +1,7 @@
 package main
 
 func init() {
-	for _, id := range []string{"C04", "C07", "C11", "C15", "C20"} {
+	for _, id := range []string{"C04", "C07", "C11", "C20"} {
 		notApplicable[id] = "not yet claimed: contracts for this property are still being written (see DESIGN.md); no check is registered"
 	}
 	notApplicable["C12"] = "command/response matching lives in goroutine, channel and timer interplay (onActiveEvent/onActiveRespondEvent/write); no sequential function contract within the verifier's subset carries the claim"
@@ -206,6 +206,27 @@ func init() {
 			"functions that dispatch through interfaces or call function values: PackageProgress.iter/stageStreamData/stageJT808Data, BaseJT808DataHandler.ReplyData (its precondition, the first frame's header being kept, is established by the verified handler Parse), connection.defaultReplyEvent, Message.Parse",
 			"the preconditions assumed of call sites outside the verified set: OnEvent's (a message is present in non-final stages, CurrentPackage is set in chunk stages, records are non-nil), the chunk parsers' minimum length, the handler's non-nil message objects",
 			"packageParse.parse as a composition (its callees are verified one by one)",
+		},
+	})
+}
+
+func init() {
+	registerProp(&PropDef{
+		ID:    "C15",
+		Title: "Attachment upload: files are reassembled byte-exactly",
+		Roots: []string{
+			"attachment.(*baseStreamDataHandle).HasStreamData", "attachment.(*baseStreamDataHandle).HasMinHeadLen", "attachment.(*baseStreamDataHandle).Parse",
+			"attachment.(*baseStreamDataHandle).GetDataOffsetAndLen", "attachment.(*baseStreamDataHandle).GetFileName",
+			"attachment.(*heiBiaoStreamDataHandle).HasMinHeadLen", "attachment.(*heiBiaoStreamDataHandle).Parse",
+			"attachment.(*PackageProgress).parseJT808Message",
+		},
+		Decided: "the classification and header kernel of the statement: the pending bytes are treated as a chunk exactly when they start with the marker 30 31 63 64, so a control frame is recognised as such whatever bytes it contains " +
+			"(the statement's marker clause); the minimum header length tests; both chunk-header layouts (marker, NUL-padded 50-byte name or length-prefixed name, offset and length big-endian at their positions, header and body lengths returned); " +
+			"control-frame extraction takes the bytes up to and including the first 0x7e after the first byte and leaves the rest pending; all without panics for every input",
+		Undecided: []string{
+			"reassembly itself: PackageProgress.stageStreamData/iter (interface dispatch, range-over-func, sort, deferred closure) are outside the verifier's subset: 'complete only when every byte has arrived', byte-identical content, duplicate and out-of-order chunks, any segmentation of the stream. Reading the code: CurrentSize is increased for every chunk, also for a resent one, so duplicates can make CurrentSize reach FileSize while bytes are missing - not decided here, not repaired",
+			"each control frame answered exactly once (connection.run, goroutines and sockets)",
+			"the file-name field (bytes.Trim is modelled as 'some sub-slice')",
 		},
 	})
 }
